@@ -714,6 +714,8 @@ Definition ustep (us : uschema) (e : uev) : ures :=
           match find_ptr (ut_own ty) p with
           | None => if mem_id p (vis_names us (ut_id ty)) then UOutOfScope else URejected
           | Some pt =>
+              if b && up_comp pt then UOutOfScope   (* inferred optionality may contradict `required` *)
+              else
               UOk (upd_type us (upd_own ty (upd_ptr (ut_own ty)
                      (mkPtr (up_id pt) (up_name pt) (up_link pt) (up_target pt) (up_multi pt)
                             b (up_comp pt) (up_lps pt))))) []
